@@ -6,6 +6,7 @@ package harness
 
 import (
 	"fmt"
+	"io"
 	"reflect"
 	"sort"
 	"strings"
@@ -40,7 +41,7 @@ func runC08(c c08Case) Verdict {
 	if err2 != nil {
 		return failf("the same program in another layout does not load: %v%s", err2, ctx())
 	}
-	if !reflect.DeepEqual(t1, t2) {
+	if !lay.TextBlanks && !reflect.DeepEqual(t1, t2) {
 		return failf("the parsed dialogues of two layouts of one program differ: %s%s", firstTreeDifference(t1, t2), ctx())
 	}
 	// the distribution of nodes over readers is layout too: everything in one reader (file hashtags can only stand at the
@@ -53,6 +54,20 @@ func runC08(c c08Case) Verdict {
 		t3, err3 := ysgo.VerifFromReaders(strings.NewReader(strings.Join(canon, "")))
 		if err3 != nil || !reflect.DeepEqual(t1, t3) {
 			return failf("the same nodes in a single reader give another dialogue (err=%v)%s", err3, ctx())
+		}
+	}
+	// ... and so is the way the host cuts one stream into readers: consecutive windows on a single stream (each reader
+	// must be read to its end before the next one is touched) load like separate readers
+	if len(alt) > 1 {
+		stream := strings.NewReader(strings.Join(alt, ""))
+		windows := make([]io.Reader, len(alt))
+		for i, f := range alt {
+			windows[i] = io.LimitReader(stream, int64(len(f)))
+		}
+		windows[len(alt)-1] = stream
+		t4, err4 := ysgo.VerifFromReaders(windows...)
+		if err4 != nil || !reflect.DeepEqual(t2, t4) {
+			return failf("the same files read as consecutive windows on one stream give another dialogue (err=%v)%s", err4, ctx())
 		}
 	}
 	// traces
@@ -69,8 +84,17 @@ func runC08(c c08Case) Verdict {
 		if e1 != nil || e2 != nil {
 			return failf("loading through the runner fails: %v / %v%s", e1, e2, ctx())
 		}
+		// what the markup of every returned line and option says (attributes with their ranges) belongs to the element
+		var attrs1, attrs2 []string
+		h1.onElement = func(el *ysgo.DialogueElement) { attrs1 = append(attrs1, describeAttributes(el)) }
+		h2.onElement = func(el *ysgo.DialogueElement) { attrs2 = append(attrs2, describeAttributes(el)) }
 		h1.drive(choices, nil, flowMaxEv, true)
 		h2.drive(choices, nil, flowMaxEv, true)
+		for i := range attrs1 {
+			if i < len(attrs2) && attrs1[i] != attrs2[i] {
+				return failf("two layouts of one program give different markup attributes for element %d (canonical vs other) for choices %v: %s vs %s%s", i, choices, attrs1[i], attrs2[i], ctx())
+			}
+		}
 		if d := diffTraces(h1.trace, h2.trace); d != "" {
 			return failf("two layouts of one program give different traces (canonical vs other) for choices %v: %s%s", choices, d, ctx())
 		}
@@ -112,6 +136,31 @@ func runC08(c c08Case) Verdict {
 		}
 	}
 	return Verdict{NonTrivial: dims >= 2 && noiseInBody && elements >= 3, Classes: cls}
+}
+
+// describeAttributes renders the attributes of an element's line(s): name, range, properties, in a canonical order.
+func describeAttributes(el *ysgo.DialogueElement) string {
+	one := func(l *ysgo.Line) string {
+		if l == nil {
+			return "-"
+		}
+		var out []string
+		for _, a := range l.Attributes {
+			var props []string
+			for k, v := range a.Properties {
+				props = append(props, fmt.Sprintf("%s=%v", k, v))
+			}
+			sort.Strings(props)
+			out = append(out, fmt.Sprintf("%s@%d+%d%v", a.Name, a.Position, a.Length, props))
+		}
+		sort.Strings(out)
+		return fmt.Sprint(out)
+	}
+	s := one(el.Line)
+	for _, o := range el.Options {
+		s += " | " + one(o.Line)
+	}
+	return s
 }
 
 func usedKinds(used map[string]int) []string {
@@ -168,6 +217,16 @@ var c08Layout = Register(Prop[c08Case]{
 				n.Body = append(n.Body[:at:at], append([]*Stmt{stmt}, n.Body[at:]...)...)
 			}
 		}
+		c.Layout.TextBlanks = rapid.IntRange(0, 3).Draw(t, "textblanks") == 0
+		if rapid.IntRange(0, 2).Draw(t, "speakers") == 0 {
+			// lines that are (or start with) a speaker prefix: the character attribute belongs to what the element shows
+			for _, file := range c.Script.Files {
+				n := file[rapid.IntRange(0, len(file)-1).Draw(t, "speakernode")]
+				at := rapid.IntRange(0, len(n.Body)).Draw(t, "speakerat")
+				text := rapid.SampledFrom([]string{"Guard:", "José:", "Guard: halt", "日本:", "Mr Smith: [b]well[/b]", "Guard: [wave/]"}).Draw(t, "speaker")
+				n.Body = append(n.Body[:at:at], append([]*Stmt{{K: "line", Text: []TextPart{{S: text}}}}, n.Body[at:]...)...)
+			}
+		}
 		for i := 0; i < 2; i++ {
 			c.Choices = append(c.Choices, genChoices(t))
 		}
@@ -191,7 +250,7 @@ var c08Layout = Register(Prop[c08Case]{
 		for len(c.Layout.Tape) > 0 && c.Layout.Tape[len(c.Layout.Tape)-1] == 0 {
 			c.Layout.Tape = c.Layout.Tape[:len(c.Layout.Tape)-1]
 		}
-		for _, f := range []func(*c08Case){func(x *c08Case) { x.Layout.Unit = 4 }, func(x *c08Case) { x.Layout.CRLF = false }, func(x *c08Case) { x.Layout.FlatIf = false }, func(x *c08Case) { x.Layout.NoFinalNL = false }, func(x *c08Case) { x.Choices = x.Choices[:1] }} {
+		for _, f := range []func(*c08Case){func(x *c08Case) { x.Layout.Unit = 4 }, func(x *c08Case) { x.Layout.CRLF = false }, func(x *c08Case) { x.Layout.FlatIf = false }, func(x *c08Case) { x.Layout.NoFinalNL = false }, func(x *c08Case) { x.Layout.TextBlanks = false }, func(x *c08Case) { x.Choices = x.Choices[:1] }} {
 			cc := c
 			f(&cc)
 			if stillFails(cc) {
